@@ -328,6 +328,9 @@ type World struct {
 	// body fails (it receives the spec's static Fail flag); used for
 	// histories in which a function fails in one call and succeeds in another.
 	FailOn func(fi, exec int, specFail bool) bool
+	// UnsatErrors makes failing bodies return a (fresh) *ErrArgumentUnsatisfied
+	// obtained from an inner, unsatisfiable call instead of a *failErr.
+	UnsatErrors bool
 	// NextDefaults, when non-nil, is passed as is (same backing array) as the
 	// default options of the next function built.
 	NextDefaults []am.Arg
@@ -444,6 +447,11 @@ func (w *World) record(fi int, spec *FuncSpec, obs []ArgObs, concs []int, enterN
 	var err error
 	if (spec.Fail && w.FailOn == nil) || (w.FailOn != nil && spec.HasErr && w.FailOn(fi, ev.Exec, spec.Fail)) {
 		err = &failErr{fi, ev.Exec}
+		if w.UnsatErrors {
+			// a body that uses argmapper itself and hands on the error of an
+			// inner call: the value is an *ErrArgumentUnsatisfied
+			err = innerUnsatError()
+		}
 		w.errs[err] = ev.Seq
 		ev.Err = err
 	}
@@ -714,6 +722,10 @@ type Inst struct {
 	// ZeroInput1, when > 0, makes input ZeroInput1-1 the zero value of its
 	// type (id 0) in every InputArgs call.
 	ZeroInput1 int
+	// GroupTyped supplies all type-only inputs without subtype through ONE
+	// Typed(a, nil, b, ...) option with nil values in between (nil values
+	// must simply be ignored).
+	GroupTyped bool
 }
 
 var errDupType = errors.New("two generated functions share a Go type")
@@ -778,6 +790,7 @@ func InputArg(l Label, id int64) am.Arg {
 func (in *Inst) InputArgs(call int) []am.Arg {
 	args := make([]am.Arg, 0, len(in.S.Inputs))
 	in.InputIDs = in.InputIDs[:0]
+	var grouped []interface{}
 	for i, l := range in.S.Inputs {
 		var id int64
 		if in.ZeroInput1 == i+1 {
@@ -786,7 +799,18 @@ func (in *Inst) InputArgs(call int) []am.Arg {
 			id = in.W.FreshInput(call, i, l)
 		}
 		in.InputIDs = append(in.InputIDs, id)
+		if in.GroupTyped && l.Name == "" && l.Sub == "" {
+			if len(grouped) == 0 || call%2 == 0 {
+				var e error // an untyped nil inside the list
+				grouped = append(grouped, e)
+			}
+			grouped = append(grouped, mk(l.Type, id).Interface())
+			continue
+		}
 		args = append(args, InputArg(l, id))
+	}
+	if len(grouped) > 0 {
+		args = append(args, am.Typed(grouped...))
 	}
 	return args
 }
@@ -827,14 +851,25 @@ func classify(w *World, err error) string {
 	if err == nil {
 		return ClsOK
 	}
+	// an error value a generated body returned is a converter error, whatever
+	// its dynamic type
+	if w != nil && w.IsBodyError(err) {
+		return ClsConvErr
+	}
 	var un *am.ErrArgumentUnsatisfied
 	if errors.As(err, &un) {
 		return ClsUnsat
 	}
-	if w != nil && w.IsBodyError(err) {
-		return ClsConvErr
-	}
 	return ClsOther
+}
+
+var innerUnsatFunc = am.MustFunc(am.NewFunc(func(struct{ private int }) {}))
+
+// innerUnsatError returns a fresh *ErrArgumentUnsatisfied from a real,
+// unsatisfiable inner call.
+func innerUnsatError() error {
+	r := innerUnsatFunc.Call()
+	return r.Err()
 }
 
 func panicString(p interface{}) string {
